@@ -78,7 +78,7 @@ func signKnown(np *nopanic, fn *ssa.Function, b *ssa.BasicBlock, v ssa.Value, st
 		}
 	}
 	// facts on sign(path)
-	r, p := accessPath(stripConv(v))
+	r, p := accessPath(stripConvNP(v))
 	if len(p) > 0 || paramIndex(fn, r) >= 0 {
 		term := "sign:" + rootKey(fn, r) + "." + joinDots(p)
 		iv := np.factsAt(fn, b).get(term)
@@ -132,7 +132,7 @@ func integerPreCall(np *nopanic, fn *ssa.Function, b *ssa.BasicBlock, cl *ssa.Ca
 			if !isB {
 				continue
 			}
-			cc, isC := stripConv(bo.X).(*ssa.Call)
+			cc, isC := stripConvNP(bo.X).(*ssa.Call)
 			if !isC || calleeName(&cc.Call) != "(common.Integer).Cmp" {
 				continue
 			}
@@ -157,7 +157,7 @@ func integerPreCall(np *nopanic, fn *ssa.Function, b *ssa.BasicBlock, cl *ssa.Ca
 			if !isB {
 				continue
 			}
-			cc, isC := stripConv(bo.X).(*ssa.Call)
+			cc, isC := stripConvNP(bo.X).(*ssa.Call)
 			if !isC || calleeName(&cc.Call) != "(common.Integer).Cmp" || !sameAccess(cc.Call.Args[0], args[0]) {
 				continue
 			}
@@ -165,7 +165,7 @@ func integerPreCall(np *nopanic, fn *ssa.Function, b *ssa.BasicBlock, cl *ssa.Ca
 			if !isM || calleeName(&ml.Call) != "(common.Integer).Mul" || ml.Call.Args[0] != args[1] {
 				continue
 			}
-			kk, isK := constIntOf(stripConv(ml.Call.Args[1]))
+			kk, isK := constIntOf(stripConvNP(ml.Call.Args[1]))
 			z, isZ := constIntOf(bo.Y)
 			if !isK || kk <= 0 || !isZ || z != 0 {
 				continue
@@ -194,7 +194,7 @@ func integerPreCall(np *nopanic, fn *ssa.Function, b *ssa.BasicBlock, cl *ssa.Ca
 				missing = append(missing, exprText(fn, args[i])+">0")
 			}
 		case "int>0":
-			if c, isC := constIntOf(stripConv(args[i])); !isC || c <= 0 {
+			if c, isC := constIntOf(stripConvNP(args[i])); !isC || c <= 0 {
 				iv := np.factsAt(fn, b).get(termOf(fn, args[i]))
 				if termOf(fn, args[i]) == "" || iv.lo < 1 {
 					missing = append(missing, exprText(fn, args[i])+">0")
